@@ -21,7 +21,7 @@ NCPU = int(os.environ.get("VERIF_JOBS", str(os.cpu_count() or 8)))
 ENV = dict(os.environ, CARGO_NET_OFFLINE="true", RUST_BACKTRACE="0")
 
 sys.path.insert(0, HERE)
-from plans import PLANS, LEVELS, RULES, ASSUMPTIONS  # noqa: E402
+from plans import PLANS, LEVELS, RULES, ASSUMPTIONS, EXHAUSTIVE  # noqa: E402
 
 
 def log(*a):
@@ -268,6 +268,8 @@ def check(prop, tier, seed):
     }
     if outcome_matrix:
         cov["op_outcome_matrix"] = outcome_matrix
+    if prop in EXHAUSTIVE:
+        cov["exhaustively_enumerated_subspaces"] = EXHAUSTIVE[prop]
     cov.update(extra)
     ev = {
         "property_id": prop,
